@@ -505,6 +505,21 @@ func genC15(g *gen) {
 		}
 	}
 
+	// --- G3. … and with the pool in between: a masked tensor handed back to the pool, then the copying transpositions of
+	// another masked tensor (the recycled header must not carry anything over, nor drop the new mask)
+	for _, dt := range []string{"f64", "i16", "u8"} {
+		for _, first := range []string{"2,3", "3,3", "6"} {
+			nf := 6
+			if first == "3,3" {
+				nf = 9
+			}
+			for _, op := range []string{"safeT $1 -", "apiT $1 1,0", "apiTranspose $1 1,0", "roll $1 1 0 1", "clone $1"} {
+				g.emit("pool on", fmt.Sprintf("mnew %s %s C %s", dt, first, g.maskBits(nf, "ones")), fmt.Sprintf("mnew %s 2,3 C %s", dt, g.maskBits(6, "rand")),
+					"ret $0", op, "mdump $2", "mq count $2", "mdump $1", fmt.Sprintf("mnew %s 2,3 C %s", dt, g.maskBits(6, "none")), "ret $2", "clone $3", "mdump $4")
+			}
+		}
+	}
+
 	// --- H. masked operands of elementwise operations (C06/C08 matrix, masked part)
 	binOps := []string{"add", "sub", "mul", "gt", "eq", "lt"}
 	modes := []string{"safe", "unsafe", "reuse", "incr", "reuse=a"}
